@@ -57,13 +57,54 @@ STRENGTHENED = {
  'C19/m5': 'block pseudo-inverse of blocks scaled by 2^-45 and 2^40',
  'C19/m6': 'inverse / plain / inverse call sequence on one BSR object',
  'C20/m6': 'FE Poisson: tensor-product spectrum and zero interior row sums',
+ 'C01/m9': 'right-hand sides of norm 1e-10 and 1e+12 (the criterion is relative for every nonzero b)',
+ 'C02/m7': 'one-level hierarchies: a cycle from any guess must land on the direct solution',
+ 'C02/m8': 'complex Hermitian problems stored in BSR with point Gauss-Seidel on the blocks',
+ 'C03/m7': 'presmoother None on 3+ level hierarchies under W and F cycles (second visit of a coarse level)',
+ 'C03/m8': 'mixed dtypes: real right-hand side with complex guess on a complex hierarchy (and vice versa)',
+ 'C03/m9': 'cf_jacobi / fc_jacobi smoothers on CSR levels with C/F splitting kept by the builder',
+ 'C04/m7': 'constructors with strength=None (C is A itself): user matrix must be untouched, finest level must equal it',
+ 'C04/m8': 'adaptive SA: stopping rule of the returned hierarchy checked in both units (nodes / unknowns) against max_levels',
+ 'C05/m7': 'polynomial smoothers with several iterations counted as their own class; zero guess + nonzero continuation',
+ 'C05/m9': 'W-cycle on 4-level problems compared with the dense W recursion (3 levels cannot tell W from W-then-V)',
+ 'C06/m7': 'zero right-hand side with a nonzero initial guess for every method',
+ 'C06/m9': "guess near the solution under every criterion with a preconditioner far from the identity ('MrMr' initial test)",
+ 'C07/m7': 'restarted FGMRES / GMRES over several cycles against the per-cycle least-squares optimum',
+ 'C07/m9': 'GMRES variants with a callback (callback branch shares the reduced right-hand side)',
+ 'C08/m7': 'periodic nonsymmetric M-matrices with equal row and column sums (constant vector cannot see the asymmetry)',
+ 'C08/m9': 'spy accelerators returning -1 / 0 / 7: the status must be handed through unchanged',
+ 'C09/m7': 'schwarz called twice on one matrix object with two subdomain layouts of equal sizes',
+ 'C09/m8': 'block sizes 7 and 8 with complex Hermitian / nonsymmetric diagonal blocks',
+ 'C09/m9': 'systems scaled by 2^-60 (2^-30 single) in kernel correspondence and public oracle',
+ 'C10/m7': 'energy smoothing with degree 0: T handed in must come back untouched, T B_c unchanged',
+ 'C10/m8': 'BSR prolongators with more columns per block than candidates (satisfy_constraints stride)',
+ 'C11/m7': 'local AIR for CSC / COO inputs (implicit conversion path), unsorted CSR',
+ 'C12/m7': "Lloyd with measure 'min' (zero-length edges) and with stored zeros",
+ 'C13/m7': 'random symmetric patterns on 8-24 vertices (bucket bookkeeping needs larger degree spread)',
+ 'C13/m9': 'strength matrices with stored zeros on the diagonal and nonsymmetric patterns for CLJP / CLJPc',
+ 'C14/m7': 'complex BSR inputs under the symmetric measure (block Frobenius norm of complex blocks)',
+ 'C14/m8': 'rows with negative diagonals dominating -a_ik under the min-norm classical measure',
+ 'C15/m7': 'user matrices holding entries below 1e-16 (rescaled problems) in the purity check',
+ 'C15/m8': 'dtype of every level compared across storage formats (float32, int, complex64)',
+ 'C15/m9': 'Jacobi / block Jacobi / Richardson / Chebyshev smoothers in the reusable-solver check with an unrelated RNG state between solves',
+ 'C16/m7': 'solver keyword arguments forwarded (cholesky lower=True, lu / splu options)',
+ 'C16/m8': 'pinv on the 36-point Neumann problem and matrices with a cluster of tiny singular values; least-squares reference',
+ 'C17/m7': 'filter_operator / satisfy_constraints on rectangular BSR blocks with more columns than candidates, under ASan',
+ 'C17/m8': 'graph kernels on all-equal weights (ties): the livelock shows as the overflow of its round counter (UBSan) or as a timeout',
+ 'C17/m9': 'every relaxation kernel on empty sweep ranges under LSan',
+ 'C18/m7': 'Bellman-Ford on weights scaled by 2^-50 (absolute tolerances show) and zero weights, own reference',
+ 'C19/m7': 'condest against dense cond on structured matrices up to 18x18 (Lanczos loses orthogonality there)',
+ 'C19/m9': 'filtering with dyadic thresholds and gallery matrices: entries exactly on the threshold stay',
+ 'C20/m7': '3-D diffusion stencil: consistency on all quadratic monomials for rotated tensors (found F25 on the way)',
+ 'C20/m8': 'stencil_grid linear in the stencil: stencils scaled by 2^-40 and 2^40',
+ 'C20/m9': 'linear_elasticity against an independent Q1 plane-strain assembly for several (E, nu)',
 }
 rows = []
 for mdir in sorted(glob.glob(ROOT + '/C*/m*')):
     pid, mk = mdir.split('/')[-2:]
     meta = json.load(open(mdir + '/meta.json')) if os.path.exists(mdir + '/meta.json') else {}
     res = None
-    for fn in (('result_par.json', 'result.json') if mk in ('m4', 'm5', 'm6') else ('result.json', 'result_par.json')):
+    for fn in ('result_par.json', 'result.json'):
         if os.path.exists(os.path.join(mdir, fn)):
             res = json.load(open(os.path.join(mdir, fn)))
             break
